@@ -89,6 +89,12 @@ def defineWord (items : List Item) (cs : List Nat) : List Item × List Nat :=
   else if peek (dwBeforeValue cs) ≠ 123 then (items, dwBeforeValue cs)
   else (sortItems (setItem items (dwName cs) (dwValue cs)), dwRest cs)
 
+/-- what a definition leaves in the output: the line breaks written inside its name and value (line numbers of later messages) -/
+def defineNl (cs : List Nat) : List Nat :=
+  if peek (dwAfterTilde cs) ≠ 123 then []
+  else if peek (dwBeforeValue cs) ≠ 123 then (dwName cs).filter (· = 10)
+  else (dwName cs).filter (· = 10) ++ (dwValue cs).filter (· = 10)
+
 /-- main loop of `convert` (before the final trim) -/
 def convertLoop : Nat → List Item → List Nat → List Nat
   | 0, _, _ => []
@@ -106,7 +112,7 @@ def convertLoop : Nat → List Item → List Nat → List Nat
        | 47, 42 :: _ => (getTokenS [42, 47] (c :: cs)).1 ++ [42, 47] ++ convertLoop f items (getTokenS [42, 47] (c :: cs)).2
        | _, _ => ch :: convertLoop f items cs)
     else if ch = 126 ∨ ch = 0x203E then
-      convertLoop f (defineWord items cs).1 (defineWord items cs).2
+      defineNl cs ++ convertLoop f (defineWord items cs).1 (defineWord items cs).2
     else
       match firstMatch items (c :: cs) with
       | some it => it.value ++ convertLoop f items ((c :: cs).drop it.name.length)
